@@ -115,11 +115,11 @@ Proof.
       { rewrite Eabs. unfold p. fold pre. change (F si) with (length (flat_map (toks s) pre)).
         rewrite skipn_app, skipn_all2 by lia. cbn [app].
         replace (length (flat_map (toks s) pre) + sj - length (flat_map (toks s) pre))%nat with sj by lia.
-        rewrite <- !app_assoc, skipn_app. replace (sj - length Tb)%nat with 0%nat by (unfold Tb; lia). reflexivity. }
+        rewrite <- !app_assoc, skipn_app. replace (sj - length Tb)%nat with 0%nat by lia. reflexivity. }
       rewrite Esp in Hr.
       replace (q - p)%nat with (length (skipn sj Tb) + (length midtoks + ej))%nat in Hr
         by (unfold p, q; rewrite skipn_length; unfold Tb in *; lia).
-      rewrite firstn_app_2, firstn_app_2, firstn_app in Hr. replace (ej - length Te)%nat with 0%nat in Hr by (unfold Te; lia).
+      rewrite firstn_app_2, firstn_app_2, firstn_app in Hr. replace (ej - length Te)%nat with 0%nat in Hr by lia.
       cbn [firstn] in Hr. rewrite app_nil_r in Hr. exact Hr. }
     assert (InvG (eq nb) S3' /\
             abs S3' = flat_map (toks s) pre ++ NT ++ flat_map (toks s) post /\
